@@ -7,7 +7,7 @@ ROOT = os.path.dirname(os.path.dirname(os.path.abspath(__file__)))
 REPO = os.environ.get("VERIF_REPO", "/repo")
 COQ = os.path.join(ROOT, "coq")
 COQGEN = os.path.join(ROOT, "coqgen")
-WORK = os.path.join(ROOT, "work")
+WORK = os.environ.get("VERIF_WORK") or os.path.join(ROOT, "work")
 HARNESS = os.path.join(ROOT, "harness")
 EVID = os.environ.get("VERIF_EVIDENCE_DIR") or os.path.join(ROOT, "evidence")   # bin/mutcheck redirects it: a run on a mutated tree must never overwrite the evidence
 NCPU = os.cpu_count() or 4
